@@ -149,6 +149,24 @@ def isEmptyExpr (e : Expr) : Bool := e.isEmpty
 /-- `s.chars().count()` on a character string -/
 def charsCount (s : List Char) : Nat := s.length
 
+/-! ## `u8` / `char` ASCII predicates and integer casts (exact definitions of the std functions) -/
+
+/-- `u8::is_ascii` / `char::is_ascii` -/
+def isAscii (b : Nat) : Bool := decide (b < 128)
+/-- `is_ascii_uppercase`, `is_ascii_lowercase`, `is_ascii_alphanumeric` on a byte / scalar value -/
+def isAsciiUppercase (b : Nat) : Bool := decide (65 ≤ b) && decide (b ≤ 90)
+def isAsciiLowercase (b : Nat) : Bool := decide (97 ≤ b) && decide (b ≤ 122)
+def isAsciiAlphanumeric (b : Nat) : Bool := isAsciiAlphabetic b || isDigit b
+/-- `x as u8`, `x as u32`, `x as usize` (wrapping truncation; widening is the identity), `b as char` for `b : u8` -/
+def asU8 (n : Nat) : Nat := n % 256
+def asU32 (n : Nat) : Nat := n % 4294967296
+def asUsize (n : Nat) : Nat := n % 18446744073709551616
+def u8AsChar (b : Nat) : Char := mkChar (b % 256)
+/-- `usize::checked_add` / `checked_sub` / `saturating_sub` -/
+def checkedAddUsize (a b : Nat) : Option Nat := if a + b ≤ usizeMax then some (a + b) else none
+def checkedSubUsize (a b : Nat) : Option Nat := if b ≤ a then some (a - b) else none
+def saturatingSub (a b : Nat) : Nat := a - b
+
 /-- the decreasing proofs of the recursive descent: measure `(descent fuel, rank, loop fuel)`, lexicographic -/
 macro "descent_decreasing" : tactic => `(tactic|
   (simp_wf
